@@ -2,7 +2,8 @@
    model (mwmodel) and the in-kernel cross-check: a case is a list of naturals
    (first = interface id), a result is a line of ASCII codes.                  *)
 From Coq Require Import String.
-From MW Require Import Model.Base Model.F64 Model.Num Model.NumFmt Model.Datum Model.Lex Model.Highlight Model.Parse.
+From MW Require Import Model.Base Model.F64 Model.Num Model.NumFmt Model.Datum Model.Lex Model.Highlight Model.Parse
+  Model.WireNum Model.WireStr Model.WireLv Model.WireMac Model.WireGc Model.WireVm Model.WireMisc.
 Open Scope N_scope.
 
 
@@ -62,5 +63,15 @@ Definition run_case (c : list N) : list N :=
   | 3 :: i :: t => show_out show_bool (highlight_check t i)
   | 4 :: t => show_out (show_parse_text t) (parse_text t)
   | 5 :: t => S_ "ALL" ++ parse_all (S (length t)) t []
-  | _ => S_ "BADCASE"
+  | id :: _ =>
+      if id <? 10 then S_ "BADCASE"
+      else if id <? 30 then run_num c
+      else if id <? 40 then run_str c
+      else if id <? 50 then run_lv c
+      else if id <? 60 then run_mac c
+      else if id <? 70 then run_gc c
+      else if id <? 100 then run_vm c
+      else if id <? 120 then run_misc c
+      else S_ "BADCASE"
+  | [] => S_ "BADCASE"
   end.
